@@ -42,6 +42,9 @@ type fsDB struct {
 	// afterSelect is called after a SELECT has taken its rows and released the lock, before the rows are returned
 	afterSelect func(q string)
 	failNext    error
+	// declaredUpper: information_schema reports the column names as the table declares them, with a capital first
+	// letter ("Name" for the struct's "name"); statements find them all the same, as MySQL's do
+	declaredUpper bool
 }
 
 var fsRegistry = struct {
@@ -401,6 +404,9 @@ func (c *fsConn) queryLocked(q string, args []driver.NamedValue) (driver.Rows, e
 		out := &fsRows{cols: []string{"column_name"}}
 		if t := c.db.tables[fmt.Sprint(vals[1])]; t != nil {
 			for _, cn := range t.Cols {
+				if c.db.declaredUpper && cn != "" {
+					cn = strings.ToUpper(cn[:1]) + cn[1:]
+				}
 				out.rows = append(out.rows, []driver.Value{cn})
 			}
 		}
